@@ -2022,7 +2022,7 @@ def call_parser_function(
             ofs = arg.find("=")
             if ofs >= 0:
                 k = arg[:ofs]
-                if k.isdigit():
+                if k.isdecimal():
                     k = int(k)
                 arg = arg[ofs + 1 :]
             else:
